@@ -263,7 +263,7 @@ func (t travOnly) From(id int64) graph.Nodes {
 	}
 	return it
 }
-func (t travOnly) Edge(u, v int64) graph.Edge                { return t.g.Edge(u, v) }
+func (t travOnly) Edge(u, v int64) graph.Edge             { return t.g.Edge(u, v) }
 func (t travOnly) Weight(x, y int64) (w float64, ok bool) { return t.w(x, y) }
 
 // travUnweighted exposes only traverse.Graph (UniformCost is used).
